@@ -1,6 +1,6 @@
 /* C18: lib/srfi/95/qsort.c — sexp_sort_x (both the object-compare fast path and the
    user-comparator path) and sexp_object_compare_op.
-   -DN=<n> elements, -DMODE: 1 = less is #f (object-cmp fast path, flonum elements),
+   -DN=<n> elements, -DMODE: 1 = less is #f (object-cmp fast path, flonum elements), 5 = the same on fixnums from a boundary lattice (-DE0 -DE1 -DE2),
    2 = less is a procedure (environment: sexp_apply implements "some strict weak order":
    order by a free key per element), 3 = as 2 but the comparator raises at a free call,
    -DLIST: input is a list instead of a vector.  4 = sexp_object_compare_op laws. */
@@ -38,6 +38,12 @@ void harness(void) {
   sexp seq, res;
 #if MODE == 1
   for (int i = 0; i < N; i++) { double d = nondet_double(); __CPROVER_assume(d == d); elem[i] = kit_flonum(d); }
+#elif MODE == 5
+  /* object-cmp fast path on immediates: fixnums from the boundary lattice, chosen per query (R10: a free fixnum keeps the
+     kind tests of sexp_object_compare symbolic and symex does not finish within 300 s) */
+#define LAT(i) ((i) == 0 ? SEXP_MIN_FIXNUM : (i) == 1 ? -1 : (i) == 2 ? 0 : (i) == 3 ? 1 : SEXP_MAX_FIXNUM)
+  { static const int pick[3] = { E0, E1, E2 };
+    for (int i = 0; i < N; i++) elem[i] = sexp_make_fixnum(LAT(pick[i % 3])); }
 #elif MODE == 2 || MODE == 3
   for (int i = 0; i < N; i++) {
     sexp_sint_t k = nondet_sword(); __CPROVER_assume(k >= 0 && k < (1 << KEYBITS));
@@ -49,7 +55,7 @@ void harness(void) {
 #if MODE == 3
   raise_at = nondet_int(); __CPROVER_assume(raise_at >= 1 && raise_at <= N * N);
 #endif
-#if MODE <= 3
+#if MODE <= 3 || MODE == 5
 #ifdef LIST
   seq = SEXP_NULL;
   for (int i = N - 1; i >= 0; i--) seq = kit_pair(elem[i], seq);
@@ -60,7 +66,7 @@ void harness(void) {
   seq = sexp_global(ctx, SEXP_G_EMPTY_VECTOR);
 #endif
 #endif
-  res = sexp_sort_x(ctx, SEXP_FALSE, 3, seq, MODE == 1 ? SEXP_FALSE : less_proc, SEXP_FALSE);
+  res = sexp_sort_x(ctx, SEXP_FALSE, 3, seq, (MODE == 1 || MODE == 5) ? SEXP_FALSE : less_proc, SEXP_FALSE);
 #if MODE == 3
   if (calls >= raise_at) { KIT_ASSERT(res == the_exn, "an exception raised by the comparator propagates"); }
   else
@@ -76,12 +82,21 @@ void harness(void) {
     KIT_ASSERT(sexp_vectorp(res) && sexp_vector_length(res) == N, "sorting a vector returns a vector of the same length");
     for (int i = 0; i < N; i++) out[i] = sexp_vector_data(res)[i];
 #endif
+#if MODE == 5
+    /* permutation of a multiset: every value occurs as often in the result as in the input */
+    for (int i = 0; i < N; i++) {
+      int cin = 0, cout = 0;
+      for (int j = 0; j < N; j++) { if (elem[j] == elem[i]) cin++; if (out[j] == elem[i]) cout++; }
+      KIT_ASSERT(cin == cout, "the result is a permutation of the input (fixnums, with multiplicity)");
+    }
+#else
     /* permutation: every input element occurs exactly once (elements are pairwise distinct objects) */
     for (int i = 0; i < N; i++) {
       int cnt = 0;
       for (int j = 0; j < N; j++) if (out[j] == elem[i]) cnt++;
       KIT_ASSERT(cnt == 1, "the result is a permutation of the input");
     }
+#endif
     /* ordered and stable */
     for (int i = 0; i + 1 < N; i++) {
 #if MODE == 1
@@ -92,6 +107,9 @@ void harness(void) {
         for (int j = 0; j < N; j++) { if (elem[j] == out[i]) ix = j; if (elem[j] == out[i+1]) iy = j; }
         KIT_ASSERT(ix < iy, "equal elements keep their input order (stable)");
       }
+#elif MODE == 5
+      KIT_ASSERT(sexp_fixnump(out[i]) && sexp_fixnump(out[i+1]), "fixnums stay fixnums");
+      KIT_ASSERT(sexp_unbox_fixnum(out[i]) <= sexp_unbox_fixnum(out[i+1]), "the result is in numeric order (fixnums, boundary lattice)");
 #else
       sexp_sint_t x = sexp_unbox_fixnum(out[i]), y = sexp_unbox_fixnum(out[i+1]);
       KIT_ASSERT((x >> 3) <= (y >> 3), "the result is ordered by the comparator");
@@ -107,6 +125,9 @@ void harness(void) {
     double d = nondet_double(); __CPROVER_assume(d == d); v[i] = kit_flonum(d);
 #elif KIND == 2
     v[i] = kit_any_bignum(1, 1);
+#elif KIND == 4
+#define LAT(i) ((i) == 0 ? SEXP_MIN_FIXNUM : (i) == 1 ? -1 : (i) == 2 ? 0 : (i) == 3 ? 1 : SEXP_MAX_FIXNUM)
+    v[i] = sexp_make_fixnum(i == 0 ? LAT(E0) : i == 1 ? LAT(E1) : LAT(E2));
 #else
     sexp b = kit_bytes(2);
     sexp_bytes_data(b)[0] = nondet_uchar(); sexp_bytes_data(b)[1] = nondet_uchar();
@@ -122,6 +143,10 @@ void harness(void) {
   sexp_sint_t ba = sexp_unbox_fixnum(sexp_object_compare_op(ctx, SEXP_FALSE, 2, v[1], v[0]));
   sexp_sint_t bc = sexp_unbox_fixnum(sexp_object_compare_op(ctx, SEXP_FALSE, 2, v[1], v[2]));
   sexp_sint_t ac = sexp_unbox_fixnum(sexp_object_compare_op(ctx, SEXP_FALSE, 2, v[0], v[2]));
+#if KIND == 4
+  { sexp_sint_t x = sexp_unbox_fixnum(v[0]), y = sexp_unbox_fixnum(v[1]);
+    KIT_ASSERT(sgn(ab) == (x < y ? -1 : x > y ? 1 : 0), "object-cmp on two fixnums agrees with numeric order (boundary lattice)"); }
+#endif
   KIT_ASSERT(sgn(ab) == -sgn(ba), "object-cmp is antisymmetric");
   if (ab <= 0 && bc <= 0) KIT_ASSERT(ac <= 0, "object-cmp is transitive");
   if (ab == 0 && bc == 0) KIT_ASSERT(ac == 0, "object-cmp equivalence is transitive");
